@@ -136,6 +136,30 @@ fn c08_accept(c: &AdfCase, st: &mut Stats) -> CheckResult {
         }
         kw_or_quoted |= want.has_binary();
     }
+    // the same parser object after a re-sort: a second instantiation must attach every condition to its
+    // statement under the new order
+    parser.varsort_lexi();
+    let names2: Vec<String> = parser.var_container().names().read().unwrap().clone();
+    let mut sorted = decl_labels.clone();
+    sorted.sort();
+    if names2 != sorted {
+        return Err(format!("after varsort_lexi the names are {names2:?}, expected byte-wise order {sorted:?}"));
+    }
+    let native2 = Adf::from_parser(&parser);
+    for (li, nm) in names2.iter().enumerate() {
+        let s = c.labels.iter().position(|l| l == nm).unwrap();
+        let want = &c.acs[s];
+        let sup: Vec<usize> = want.support().into_iter().collect();
+        for bits in 0..(1u64 << sup.len()) {
+            let val = |idx: usize| sup.iter().position(|&x| x == idx).map(|j| (bits >> j) & 1 == 1).unwrap_or(false);
+            let by_lib_var = |lv: usize| lv < n && val(c.labels.iter().position(|l| l == &names2[lv]).unwrap());
+            if sut::walk(&native2.bdd, native2.ac[li], &by_lib_var)? != want.eval(&val) {
+                return Err(format!(
+                    "second Adf::from_parser after varsort_lexi on the same parser object: diagram of statement {nm:?} differs from the written function at {bits:#b} over {sup:?}"
+                ));
+            }
+        }
+    }
     let special = c.labels.iter().any(|l| gen::needs_quotes(l) || is_keywordish(l));
     if hostile {
         st.label("bd-hostile-label(parser only)");
@@ -466,6 +490,8 @@ pub fn c08(tier: Tier) -> PropSpec {
                 || proptest::collection::vec(any::<u8>(), 1..14).boxed(),
                 c08_tokens,
             ),
+            // the CLI on valid files (all label spellings incl. blanks, layouts): the grounded line must be right
+            crate::props::cli::sem_cli_part("cli-accept", &[crate::props::cli::Flag::Grd, crate::props::cli::Flag::Com], tier.pick(150, 1500)),
             // the CLI clause: no answer for malformed text in any library mode
             Part::with_shrink(
                 "cli-reject",
